@@ -487,7 +487,9 @@ func poolHistory(c *runConf, rng *rand.Rand, h int) ([]op, bool) {
 					slot, index, v = e*genSPE+rng.Intn(genSPE), rng.Intn(2), rng.Intn(2)
 				}
 				bits := make([]int, size)
-				if !c.full || rng.Float64() < 0.4 {
+				if rng.Intn(12) == 0 {
+					// no bit set: refused before anything is stored (an early-return path)
+				} else if !c.full || rng.Float64() < 0.4 {
 					bits[rng.Intn(size)] = 1
 				} else {
 					for cnt := 0; cnt < 2; {
@@ -558,13 +560,22 @@ func poolHistory(c *runConf, rng *rand.Rand, h int) ([]op, bool) {
 		}
 	case "sync":
 		base := 5 + rng.Intn(3)
-		r0 := s.ev("SyncReset")
-		r0.Slot = base // a jump from the initial state: all six buffers are made
-		setup = append(setup, r0)
+		if c.full && rng.Intn(3) == 0 {
+			// the sequential findings of C20 are repaired: also start at genesis, sometimes without any Reset in the set-up
+			base = rng.Intn(2)
+		}
+		if !c.full || rng.Intn(3) != 0 {
+			r0 := s.ev("SyncReset")
+			r0.Slot = base // (unrepaired tree: a jump from the initial state, all six buffers are made)
+			setup = append(setup, r0)
+		}
 		n := 0
 		mkItem := func() *PoolEv {
 			n++
 			slot := base + rng.Intn(5) - 2
+			if slot < 0 {
+				slot = 0
+			}
 			var it SyncItem
 			if rng.Intn(3) > 0 {
 				it = SyncItem{ID: fmt.Sprintf("m%d", n), Kind: "msg", Slot: slot, V: rng.Intn(3), Root: rng.Intn(2)}
@@ -582,7 +593,7 @@ func poolHistory(c *runConf, rng *rand.Rand, h int) ([]op, bool) {
 				e.Slot = base + 1
 			case q < 7:
 				e.Slot = base
-			case q < 9:
+			case q < 9 && base > 0:
 				e.Slot = base - 1
 			default:
 				e.Slot = base + 3
